@@ -503,7 +503,7 @@ def oracle(c):
     tol = EPS_O[f32] * (1 + ex["abs"])
     if o.get("missing_user"):
         return (f"the user-supplied log_{o['missing_user'][0]} node is not part of the model produced by build #{c.get('build', 0)} "
-                f"({c.get('how')}) of the history {c['prog'].get('builds')}: Model.log_{o['missing_user'][0]} = "
+                f"({c.get('how')}) of the history {c['prog'].get('builds') or ['nocopy']} (builder_add: {c['prog'].get('builder_add')}): Model.log_{o['missing_user'][0]} = "
                 f"{fmt(o['reads'][0][o['missing_user'][0]])} is not the user node's value {ex['user'].get(o['missing_user'][0])}")
     w = window_oracle(c)
     if w:
